@@ -174,6 +174,26 @@ def scale(repo, tier, seed):
         for name, t in T.items():
             if isinstance(t, z3.ExprRef):
                 out.append(prove(f"{P}/scale[{reg}]/template_maps_to_itself/{name}", hyps, at(perturb(t, fm, cm), k), timeout_ms=30000))
+        # the scale factor may carry a country across the 10-million-people threshold the optimiser treats
+        # specially (looser tolerances when pinning the previous round's consumption): the constraints of the
+        # first solve - which decide percent fed - must be the same on both sides of it
+        Ts, facts_s, _, _, _ = get_templates(repo, store, "to_humans", pop_small=True)
+        pop = const("POP")
+        def about_threshold(f):
+            return "10000000" in f.sexpr().replace(".0", "") and "POP" in f.sexpr()
+        shared = [f for f in facts if not about_threshold(f)]
+        hyps2 = shared + [k >= 0, k < N] + bounds(k) + bounds(k - 1)
+        for name, t in T.items():
+            if not isinstance(t, z3.ExprRef):
+                continue
+            ts = Ts.get(name)
+            goal = z3.BoolVal(False) if ts is None or not isinstance(ts, z3.ExprRef) else (at(t, k) == at(ts, k))
+            out.append(prove(f"{P}/scale[{reg}]/template_same_on_both_sides_of_the_small_country_threshold/{name}", hyps2, goal,
+                             timeout_ms=30000))
+        sv = z3.Solver()
+        sv.add(*hyps2)
+        out.append({"name": f"{P}/scale[{reg}]/threshold_hypotheses_satisfiable", "kind": "cover", "backend": "z3", "goal": "sat(hyps)",
+                    "detail": "", "seconds": 0, "status": "discharged" if sv.check() == z3.sat else "failed"})
     return out
 
 
